@@ -314,6 +314,10 @@ pub fn gen_header_line(rng: &mut Rng, cfg: &GenCfg) -> Vec<u8> {
         let next_lf = at < l.len() && l[at] == b'\n';
         if !(c == b'\n' && prev_cr) && !(c == b'\r' && next_lf) {
             l.insert(at, c);
+            // never split a multi-byte character (that would be a different fault: invalid UTF-8)
+            if std::str::from_utf8(&l).is_err() {
+                l.remove(at);
+            }
         }
     }
     l
